@@ -70,6 +70,15 @@ def step? (line : String) : Option String :=
           else
             let sep := if (base.splitOn " | ").getLast?.map (·.trimAscii.toString) == some "" then "" else " || "
             some (base ++ sep ++ " || ".intercalate mine)
+        | .err name =>
+          let matching : Bool := match cs.setting with
+            | .hall h => numberOfHall h == numberOfHall cs.truth.hall && (numberOfHall cs.truth.hall).isSome
+            | _ => true
+          let mine := checkC07err matching name
+          if mine.isEmpty then some base
+          else
+            let sep := if (base.splitOn " | ").getLast?.map (·.trimAscii.toString) == some "" then "" else " || "
+            some (base ++ sep ++ " || ".intercalate mine)
         | _ => some base
       | none => some base
   | ["wyckspace", k] => some (cmdWyckSpace k)
